@@ -221,7 +221,7 @@ def plan(tier):
     return ts
 
 
-replay = sweep.replay_by_task(dispatch)
+replay = sweep.replay_with_machines(sweep.replay_by_task(dispatch))
 
 
 def main(tier, t0):
@@ -235,4 +235,5 @@ def main(tier, t0):
               'construction of the enumeration'),
         assumptions=['truth-table model of quantification = fold of OR/AND over cofactors '
                      '(mc/ref.py)'],
-        replay_fn=replay)
+        replay_fn=replay,
+        machines=__import__('mc.machines', fromlist=['x']).mixed_machines(tier))
